@@ -33,7 +33,8 @@ def _decl(e) -> str:
     return f'{e["name"]} = ScalarParam({val}{extra})'
 
 
-def render_text(blocks, eol: str = "\n") -> str:
+def render_text(blocks, eol: str = "\n", sep_comments: bool = False) -> str:
+    """sep_comments: a comment line after every line of an expressions block (position-bound, not entry-bound)."""
     out = []
     for b in blocks:
         comp = b["comp"]
@@ -49,6 +50,8 @@ def render_text(blocks, eol: str = "\n") -> str:
                 if e.get("unit"):
                     line += f' # {e["unit"]}'
                 out.append(line)
+                if sep_comments:
+                    out.append("# ---")
     return eol.join(out) + eol
 
 
